@@ -277,6 +277,10 @@ def run_case(run, tap, stream, index, rng):
         for _ in range(12):
             kind = int(rng.integers(0, 13))
             region = [10.0, 50.0, -20.0, 20.0]
+            if kind in (5, 6):  # invalid coordinates are refused whatever the (valid) region: global, crossing, narrow
+                region = [[10.0, 50.0, -20.0, 20.0], [0.0, 360.0, -90.0, 90.0], [-180.0, 180.0, -60.0, 60.0], [-35.0, 325.0, -20.0, 20.0],
+                          [350.0, 10.0, -5.0, 5.0], [170.0, -170.0, -5.0, 5.0], [0.0, 0.0, 0.0, 0.0]][int(rng.integers(0, 7))]
+                run.count("class:invalid_coordinates_region_%d" % int(abs(region[1] - region[0]) == 360))
             lon, lat = good_lon.copy(), good_lat.copy()
             if kind == 0:
                 region[0] = float(-180 - rng.uniform(1e-6, 100))
